@@ -47,107 +47,6 @@ def _fn(spec):
 # ------------------------------------------------------------------------------------ C-esc
 
 
-def rule_escape_emit(rep, rule="C-esc"):
-    """Every payload emitted between double quotes passes through the quote-doubling function."""
-    idx = common.ctx()
-    esc = idx.get("utilities.utils:escapeQuotes")
-    rets = [n for n in ast.walk(esc.node) if isinstance(n, ast.Return)]
-    ok = len(rets) == 1 and tf.is_double(rets[0].value) and isinstance(rets[0].value.func.value, ast.Name) and rets[0].value.func.value.id in esc.params
-    rep.check(ok, rule, esc.short, norm(rets[0].value) if rets else "return", ok="doubles every double quote of its argument", bad="escapeQuotes is not text.replace('\"', '\"\"')")
-    n_payload = 0
-    for spec in (LONG_W, SHORT_W):
-        fn = idx.get(spec)
-        rep.functions.add(fn.qual)
-        for s in tf.percent_slots(fn):
-            if not s.quoted or s.conv != "s":
-                continue
-            arg = s.arg
-            if isinstance(arg, ast.Name):
-                arg = tf.single_def(fn, arg.id) or arg
-            if isinstance(arg, ast.Subscript) and isinstance(arg.slice, ast.Constant) and arg.slice.value == "class":
-                rep.proved(rule, fn.short, s.template.strip(), "tier class constant (IntervalTier/TextTier): contains no quote", nontrivial=False)
-                continue
-            n_payload += 1
-            good = tf.is_call_to(idx, fn, arg, "escapeQuotes")
-            rep.check(good, rule, fn.short, "%s <- %s" % (s.template.strip(), norm(s.arg)),
-                      ok="payload passes through escapeQuotes", bad="a name or label is written between quotes without doubling its quotes: a label containing '\"' ends the string early", loc=fn.where(s.node))
-    rep.floor(rule, 6, "escapeQuotes + 3 long (name, text, mark) + 2 short (name, label) payload sites")
-    return n_payload
-
-
-# ------------------------------------------------------------------------------------ C-unesc
-
-
-def rule_unescape_read(rep, rule="C-unesc"):
-    """Every name / label the readers return has been un-doubled exactly once, after its delimiters were removed."""
-    idx = common.ctx()
-    total = 0
-    for spec in (LONG_R, SHORT_R):
-        fn = idx.get(spec)
-        rep.functions.add(fn.qual)
-        sites = []  # (kind, stmt, expr)
-        for s in tf.stmts_in_order(fn):
-            for n in ast.walk(s) if isinstance(s, (ast.Expr, ast.Assign)) else []:
-                if isinstance(n, ast.Call) and norm(n.func) in ("Interval", "Point") and n.args:
-                    sites.append((norm(n.func) + " label", s, n.args[-1]))
-                if isinstance(n, ast.Dict):
-                    for k, v in zip(n.keys, n.values):
-                        if isinstance(k, ast.Constant) and k.value == "name":
-                            sites.append(("tier name", s, v))
-        for kind, stmt, node in sites:
-            total += 1
-            info = tf.payload_ops(idx, fn, stmt, node)
-            if info is None:
-                rep.undecided(rule, fn.short, kind + ": " + norm(node)[:50], "derivation of the payload from the file text is outside the modelled forms")
-                continue
-            ops = info["ops"]
-            count = ops.count("undouble")
-            how = info["source"]
-            if how == "regex-group":
-                pat = info.get("pattern") or ""
-                # the capture group must exclude the delimiting quotes
-                quoted_group = '\\"(' in pat and ')\\"' in pat
-                if not quoted_group:
-                    rep.undecided(rule, fn.short, kind + " <- regex group", "capture group is not delimited by the field's quotes: %r" % pat)
-                    continue
-                ordered = True
-            else:
-                ordered = "unquote" in ops and (count == 0 or ops.index("unquote") < ops.index("undouble"))
-                if "unquote" not in ops:
-                    rep.undecided(rule, fn.short, "%s <- %s" % (kind, how), "delimiting quotes are not removed by a [1:-1] slice: %s" % ops)
-                    continue
-            what = "%s <- %s" % (kind, how)
-            if count == 1 and ordered and "double" not in ops:
-                rep.proved(rule, fn.short, what, "un-doubled exactly once, after the delimiters were removed (%s)" % " > ".join(ops), loc=fn.where(stmt))
-            elif count == 1 and "double" not in ops:
-                rep.refuted(rule, fn.short, what, "quotes are un-doubled BEFORE the delimiting quotes are stripped (%s): a label made only of quotes loses one" % " > ".join(ops), loc=fn.where(stmt))
-            else:
-                rep.refuted(rule, fn.short, what, "payload is un-doubled %d time(s) (%s); the writer doubles every quote exactly once, so a label containing '\"' does not come back character for character" % (count, " > ".join(ops) or "no operation"), loc=fn.where(stmt))
-    rep.floor(rule, 6, "2 parsers x (tier name, interval label, point label)")
-    return total
-
-
-def rule_label_regex(rep, rule="C-regex-label"):
-    """The long parser's payload regexes capture greedily up to the last quote of the field and span lines."""
-    fn = _fn(LONG_R)
-    n = 0
-    for call, pat, flags in tf.regex_literals(fn, common.ctx()):
-        m = re.match(r"(name|text|mark) \?= \?\\\"\(", pat)
-        if not m:
-            continue
-        n += 1
-        kind, _ = tf.group1_repeat(pat)
-        multi = bool(flags & re.DOTALL) or m.group(1) == "name"
-        rep.check(kind == "greedy", rule, fn.short, pat, ok="greedy capture up to the closing quote at end of line",
-                  bad="capture is %s: the match stops at the first quote that is followed only by blanks up to a line end, so a multi-line label whose line ends in an escaped quote is truncated" % kind, loc=fn.where(call))
-        if m.group(1) in ("text", "mark"):
-            rep.check(multi and bool(flags & re.MULTILINE), rule, fn.short, pat + " flags", ok="MULTILINE|DOTALL: labels may contain newlines", bad="label regex without DOTALL/MULTILINE cannot read a label that contains a newline", loc=fn.where(call))
-    rep.floor(rule, 3, "name, text, mark")
-
-
-# ------------------------------------------------------------------------------------ C-num
-
-
 def reader_regexes():
     """{(pattern, flags)} of every regular expression the reader evaluated while reading the long form back."""
     out = {}
@@ -320,147 +219,6 @@ def _plain(name):
     from ..absint import Builtin
 
     return Builtin(name)
-
-
-def _is_enumerate_index(fn, arg) -> bool:
-    """arg is the index variable of a `for i, x in enumerate(...)` loop (an integer by construction)."""
-    if not isinstance(arg, ast.Name):
-        return False
-    for lp in ast.walk(fn.node):
-        if isinstance(lp, (ast.For, ast.comprehension)) and isinstance(lp.iter, ast.Call) and norm(lp.iter.func) == "enumerate" and isinstance(lp.target, ast.Tuple) and lp.target.elts:
-            if isinstance(lp.target.elts[0], ast.Name) and lp.target.elts[0].id == arg.id:
-                return True
-    return False
-
-
-def _loop_collection(lp) -> str:
-    """The collection a for-loop walks, with an enumerate(...) wrapper (any start) removed."""
-    it = lp.iter
-    if isinstance(it, ast.Call) and norm(it.func) == "enumerate" and it.args:
-        it = it.args[0]
-    return norm(it)
-
-
-def rule_numeric_slots(rep, rule="C-numslot"):
-    """Every number the two text emitters write goes through numToStr (or is an integer count/index)."""
-    idx = common.ctx()
-    for spec in (LONG_W, SHORT_W):
-        fn = idx.get(spec)
-        for s in tf.percent_slots(fn):
-            if s.quoted:
-                continue
-            arg = s.arg
-            if arg is None:
-                continue
-            if s.conv == "d":
-                t = norm(arg)
-                good = t.startswith("len(") or re.fullmatch(r"\w+ \+ 1", t) is not None or _is_enumerate_index(fn, arg)
-                rep.check(good, rule, fn.short, "%s <- %s" % (s.template.strip(), t), ok="integer count / 1-based index", bad="a '%d' slot is fed by something that is not a count or an index", loc=fn.where(s.node), nontrivial=False)
-                continue
-            if s.conv in ("s", "r"):
-                t = norm(arg)
-                if tf.is_call_to(idx, fn, arg, "numToStr") or t.startswith("len("):
-                    rep.proved(rule, fn.short, "%s <- %s" % (s.template.strip(), t), "number formatted by numToStr")
-                else:
-                    rep.refuted(rule, fn.short, "%s <- %s" % (s.template.strip(), t), "a timestamp is written without numToStr (exact formatter)", loc=fn.where(s.node))
-            else:
-                rep.refuted(rule, fn.short, "%s <- %s" % (s.template.strip(), norm(arg)), "fixed-precision conversion '%s' applied to a timestamp" % s.spec, loc=fn.where(s.node))
-    # short form entry times: [numToStr(val) for val in entry[:-1]]
-    fn = idx.get(SHORT_W)
-    comps = [n for n in ast.walk(fn.node) if isinstance(n, ast.ListComp) and tf.is_call_to(idx, fn, n.elt, "numToStr")]
-    ok = any(norm(c.generators[0].iter) == "entry[:-1]" for c in comps)
-    rep.check(ok, rule, fn.short, "[numToStr(val) for val in entry[:-1]]", ok="every time of a short-form entry is formatted by numToStr", bad="short-form entry times are not all formatted by numToStr")
-    rep.floor(rule, 10)
-
-
-# ------------------------------------------------------------------------------------ C-size / C-order
-
-
-def rule_sizes(rep, rule="C-size"):
-    """Every declared size is len(X) and the loop that follows emits exactly one item per element of X."""
-    idx = common.ctx()
-    n = 0
-    for spec in (LONG_W, SHORT_W):
-        fn = idx.get(spec)
-        loops = [x for x in ast.walk(fn.node) if isinstance(x, ast.For)]
-        for s in tf.percent_slots(fn):
-            t = norm(s.arg) if s.arg is not None else ""
-            if not t.startswith("len("):
-                continue
-            n += 1
-            coll = t[4:-1]
-            coll_expr = coll
-            # resolve a local alias (entries = tier["entries"])
-            d = tf.single_def(fn, coll) if re.fullmatch(r"\w+", coll) else None
-            alias = norm(d) if d is not None else None
-            match = [lp for lp in loops if _loop_collection(lp) == coll or (alias and _loop_collection(lp) == alias)]
-            if not match:
-                rep.refuted(rule, fn.short, t, "the declared size is len(%s) but no loop iterates %s" % (coll, coll), loc=fn.where(s.node))
-                continue
-            for lp in match:
-                skips = [x for x in ast.walk(lp) if isinstance(x, (ast.Continue, ast.Break))]
-                # only the direct body counts: nested loops own their continue/break
-                direct_skip = any(isinstance(x, (ast.Continue, ast.Break)) for st in lp.body for x in ast.walk(st) if not isinstance(st, ast.For))
-                rep.check(not direct_skip, rule, fn.short, "size = %s ; for ... in %s" % (t, norm(lp.iter)), ok="one item emitted per element, no skip",
-                          bad="the loop can skip an element (continue/break) although the declared size counts it", loc=fn.where(lp))
-    rep.floor(rule, 5, "3 long (tiers, intervals, points) + 2 short (tiers, entries)")
-
-
-def rule_short_order(rep, rule="C-order"):
-    """The short form is positional: the emitter's slot order equals the reader's consumption order."""
-    idx = common.ctx()
-    wr, rd = idx.get(SHORT_W), idx.get(SHORT_R)
-    # writer: per-tier header slots in source order
-    header = []
-    for s in tf.percent_slots(wr):
-        header.append(("Q" if s.quoted else "N", s))
-    # locate the per-tier part: slots inside the `for tier in tg["tiers"]` loop
-    tier_loop = [x for x in ast.walk(wr.node) if isinstance(x, ast.For) and 'tiers' in norm(x.iter)]
-    if not tier_loop:
-        rep.vanished(rule, wr.short, "for tier in tg['tiers']")
-        return
-    inside = {id(n) for n in ast.walk(tier_loop[0])}
-    w_seq = []
-    for kind, s in header:
-        if id(s.node) in inside:
-            payload = s.quoted and not (isinstance(s.arg, ast.Subscript) and isinstance(s.arg.slice, ast.Constant) and s.arg.slice.value == "class")
-            w_seq.append(("T" if payload else "R", norm(s.arg) if s.arg is not None else "?"))
-    # the entry line: times then the quoted label
-    # reader: helper calls in source order
-    calls = []
-    for n in tf.stmts_in_order(rd):
-        for c in ast.walk(n) if isinstance(n, (ast.Assign, ast.Expr)) else []:
-            if isinstance(c, ast.Call) and norm(c.func) in ("_fetchRow", "_fetchTextRow"):
-                calls.append(("T" if norm(c.func) == "_fetchTextRow" else "R", c))
-    r_kinds = [k for k, _ in calls]
-    # expected: header = class(R) name(T) xmin(R) xmax(R) size(R) ; interval = R R T ; point = R T
-    w_header = [k for k, _ in w_seq if True]
-    # the writer's quoted label of an entry is the last element of the entry row
-    want_header = ["R", "T", "R", "R", "R"]
-    got_w = w_header[:5]
-    rep.check(got_w[:2] + ["R", "R", "R"] == want_header and len(w_header) >= 6, rule, wr.short, "tier header slots: " + ", ".join(a for _, a in w_seq[:5]),
-              ok="class, name, xmin, xmax, size in the order of Praat's short format", bad="per-tier header slots are not class, name, xmin, xmax, size: %s" % w_seq[:6])
-    # field identity of the header slots
-    names = [a for _, a in w_seq[:5]]
-    exp = ["tier['class']", "utils.escapeQuotes(tier['name'])", "my_math.numToStr(tier['xmin'])", "my_math.numToStr(tier['xmax'])", "len(tier['entries'])"]
-    rep.check(names == exp, rule, wr.short, "header fields", ok="fields are class, name, xmin, xmax, len(entries)", bad="short-form header fields are %s, expected %s (xmin/xmax swapped or a field missing)" % (names, exp))
-    rep.check(r_kinds[:5] == want_header, rule, rd.short, "header rows: " + " ".join(r_kinds[:5]), ok="reads class, name(text row), xmin, xmax, size in that order",
-              bad="the short reader consumes the tier header as %s, the writer emits %s" % (r_kinds[:5], want_header))
-    rep.check(r_kinds[5:] == ["R", "R", "T", "R", "T"], rule, rd.short, "entry rows: " + " ".join(r_kinds[5:]), ok="interval = start, end, label(text row); point = time, label(text row)",
-              bad="entry rows are consumed as %s; the writer emits times followed by one quoted label" % r_kinds[5:])
-    # the reader must bind xmin to the 3rd row and xmax to the 4th
-    assigns = {}
-    for k, c in calls:
-        for s in ast.walk(rd.node):
-            if isinstance(s, ast.Assign) and s.value is c and isinstance(s.targets[0], ast.Tuple):
-                assigns[id(c)] = norm(s.targets[0].elts[0])
-    order_names = [assigns.get(id(c), "-") for _, c in calls[:5]]
-    ok = "Start" in order_names[2] and "End" in order_names[3]
-    rep.check(ok, rule, rd.short, "header variables: " + ", ".join(order_names), ok="3rd row is the tier start, 4th the tier end", bad="tier start/end are read from the wrong rows: %s" % order_names)
-    rep.floor(rule, 5)
-
-
-# ------------------------------------------------------------------------------------ W-doc
 
 
 def generic_dict(shape):
@@ -868,100 +626,6 @@ def rule_sibling_readers(rep, rule="H-siblings"):
 
 
 # ------------------------------------------------------------------------------------ C-blocks
-
-
-def rule_block_order(rep, rule="C-blocks"):
-    """The short reader cuts the file into tier blocks by pairing adjacent offsets of a list; the list must be
-    ascending where it is paired, or tiers come back in another order / with another tier's rows.
-
-    Ordered-sequence typestate over the function's statements: a single scan (findAll / finditer) yields an ordered
-    list; a comprehension over one ordered list is ordered; concatenating two scans is not; `.sort()` / `sorted()`
-    restore it; adding the end-of-text sentinel (an expression over len(...)) at the end keeps it."""
-    idx = common.ctx()
-    fn = idx.get(SHORT_R)
-    rep.functions.add(fn.qual)
-    env = {}
-
-    def is_scan(c):
-        return isinstance(c, ast.Call) and norm(c.func).split(".")[-1] in ("findAll", "finditer")
-
-    def has_len(e):
-        return any(isinstance(n, ast.Call) and norm(n.func) == "len" for n in ast.walk(e))
-
-    def parts(e):
-        """-> list of 'O' (ordered run), 'U' (unordered), 'S' (end sentinel), 'X' (other element)"""
-        if isinstance(e, ast.Name):
-            return [env.get(e.id, "U")]
-        if is_scan(e):
-            return ["O"]
-        if isinstance(e, ast.Call) and norm(e.func) in ("sorted",):
-            return ["O"]
-        if isinstance(e, ast.Call) and norm(e.func) in ("list", "tuple") and len(e.args) == 1:
-            return parts(e.args[0])
-        if isinstance(e, (ast.ListComp, ast.GeneratorExp)) and len(e.generators) == 1:
-            src = parts(e.generators[0].iter)
-            return ["O"] if src == ["O"] else ["U"]
-        if isinstance(e, (ast.List, ast.Tuple)):
-            out = []
-            for x in e.elts:
-                if isinstance(x, ast.Starred):
-                    out += parts(x.value)
-                else:
-                    out.append("S" if has_len(x) else "X")
-            return out
-        if isinstance(e, ast.BinOp) and isinstance(e.op, ast.Add):
-            return parts(e.left) + parts(e.right)
-        return ["U"]
-
-    def fold(ps):
-        ps = list(ps)
-        while ps and ps[-1] == "S":
-            ps.pop()
-        return "O" if ps in ([], ["O"]) else "U"
-
-    pairings = []
-    for s in tf.stmts_in_order(fn):
-        # adjacent pairing on the current state, before this statement's own effect
-        for n in ast.walk(s):
-            if isinstance(n, (ast.ListComp, ast.GeneratorExp, ast.For)):
-                subs = {}
-                for x in ast.walk(n):
-                    if isinstance(x, ast.Subscript) and isinstance(x.value, ast.Name):
-                        subs.setdefault(x.value.id, set()).add(norm(x.slice))
-                for name, ix in subs.items():
-                    if any(a.replace(" ", "") in (b.replace(" ", "") + "+1", "1+" + b.replace(" ", "")) for a in ix for b in ix):
-                        pairings.append((name, n, env.get(name)))
-            if isinstance(n, ast.Call) and norm(n.func) in ("zip", "pairwise", "itertools.pairwise") and n.args and isinstance(n.args[0], ast.Name):
-                a0 = n.args[0].id
-                if norm(n.func) != "zip" or (len(n.args) == 2 and norm(n.args[1]).replace(" ", "") == a0 + "[1:]"):
-                    pairings.append((a0, n, env.get(a0)))
-        if isinstance(s, ast.Assign) and len(s.targets) == 1 and isinstance(s.targets[0], ast.Name):
-            env[s.targets[0].id] = fold(parts(s.value))
-        elif isinstance(s, ast.AugAssign) and isinstance(s.target, ast.Name) and s.target.id in env:
-            env[s.target.id] = fold([env[s.target.id]] + parts(s.value))
-        elif isinstance(s, ast.Expr) and isinstance(s.value, ast.Call) and isinstance(s.value.func, ast.Attribute) and isinstance(s.value.func.value, ast.Name):
-            name, meth = s.value.func.value.id, s.value.func.attr
-            if name in env:
-                if meth == "sort":
-                    env[name] = "O"
-                elif meth == "append" and s.value.args:
-                    env[name] = fold([env[name], "S" if has_len(s.value.args[0]) else "X"])
-                elif meth in ("extend", "insert"):
-                    env[name] = fold([env[name]] + (parts(s.value.args[0]) if meth == "extend" else ["X"]))
-    seen = set()
-    for name, node, state in pairings:
-        if state is None or (name, state) in seen:
-            continue
-        seen.add((name, state))
-        rep.check(state == "O", rule, fn.short, "adjacent offsets of %s paired into blocks" % name,
-                  ok="the list is one ordered scan, or was sorted after its last merge (a trailing end-of-text sentinel keeps the order)",
-                  bad="offsets of several scans are concatenated and paired without sorting: with an interval tier after a point tier the blocks are cut wrongly (tiers reordered / rows of one tier parsed as another's)", loc=fn.where(node))
-    if not seen:
-        rep.undecided(rule, fn.short, "tier block boundaries", "no adjacent-offset pairing found in the short reader; the rule's anchor is gone")
-    rep.floor(rule, 1)
-
-
-# ------------------------------------------------------------------------------------ C-scan
 
 
 def _escape(s):
